@@ -4,7 +4,7 @@ import (
 	vh "github.com/WICG/webpackage/go/verifhook"
 )
 
-func detVerdict(b []byte) (v int) {
+func detOnce(b []byte) (v int) {
 	defer func() {
 		if r := recover(); r != nil {
 			v = 0
@@ -16,9 +16,30 @@ func detVerdict(b []byte) (v int) {
 	return 1
 }
 
+// The verdict must depend on the bytes of the slice only: it is asked for a slice of exact capacity and
+// for the same bytes as a prefix of a larger buffer (a receive buffer, a bytes.Buffer prefix) whose
+// hidden tail would complete a truncated item.  Disagreement between the two is reported as 2.
+func detVerdict(b []byte) int {
+	exact := append(make([]byte, 0, len(b)), b...)
+	roomy := make([]byte, len(b), len(b)+16)
+	copy(roomy, b)
+	tail := roomy[len(b):cap(roomy)]
+	for i := range tail {
+		tail[i] = byte(i % 3) // small values complete integer heads / short strings in a canonical way
+	}
+	v1, v2 := detOnce(exact), detOnce(roomy)
+	if v1 != v2 {
+		return 2
+	}
+	return v1
+}
+
 func opDet(args []Sx) Sx {
-	if detVerdict(args[0].B) == 1 {
+	switch detVerdict(args[0].B) {
+	case 1:
 		return L(Sym("accept"))
+	case 2:
+		return L(Sym("depends_on_hidden_capacity"))
 	}
 	return L(Sym("reject"))
 }
